@@ -191,7 +191,15 @@ class Tr:
                 return z3.Not(a.x.nonempty()) if isinstance(a.x, SetBV) else len(a.x) == 0
             if isinstance(op, ast.GtE) and b == 1:
                 return a.x.nonempty() if isinstance(a.x, SetBV) else len(a.x) >= 1
-            raise Unsupported('len comparison other than len(x) > 0 / >= 0 / == 0 / >= 1')
+            # general case: cardinality as a sum of bits
+            card = z3.Sum([z3.If(a.x.member(m), 1, 0) for m in a.x.u])
+            other = b.x if isinstance(b, Len) else b
+            if isinstance(b, Len):
+                other = z3.Sum([z3.If(b.x.member(m), 1, 0) for m in b.x.u])
+            return self._cmp(card, op, other)
+        if isinstance(b, Len):
+            card = z3.Sum([z3.If(b.x.member(m), 1, 0) for m in b.x.u])
+            return self._cmp(a, op, card)
         if isinstance(op, ast.Eq):
             return a == b
         if isinstance(op, ast.NotEq):
@@ -256,7 +264,8 @@ class Tr:
     def ex_Call(self, n):
         f = n.func
         if isinstance(f, ast.Name) and f.id == 'len' and 'len' not in self.env:
-            return Len(self.ex(n.args[0]))
+            arg = self.ex(n.args[0])
+            return Len(arg) if isinstance(arg, SetBV) else len(arg)
         # set.union(*[elt for var in xs])
         if (isinstance(f, ast.Attribute) and f.attr == 'union' and isinstance(f.value, ast.Name) and f.value.id == 'set'
                 and len(n.args) == 1 and isinstance(n.args[0], ast.Starred)
